@@ -30,13 +30,31 @@ func genSigners(thorough bool, emit func(Case)) {
 	for di, d := range signerSecrets() {
 		for mi, m := range signerMsgs() {
 			note := fmt.Sprintf("secret#%d msg#%d", di, mi)
+			emit(Case{API: "sign:ecdsa-rfc6979", Family: "sign/ecdsa-rfc6979", Note: note, Priv: hx(b32(d)), Msg: hx(m)})
+			emit(Case{API: "sign:ecdsa-nonce", Family: "sign/ecdsa-nonce-recid", Note: note, Priv: hx(b32(d)), Msg: hx(m)})
 			for rep := 0; rep < reps; rep++ {
 				emit(Case{API: "sign:ecdsa-random", Family: "sign/ecdsa-random", Note: note, Priv: hx(b32(d)), Msg: hx(m), Rep: rep})
 			}
-			emit(Case{API: "sign:ecdsa-rfc6979", Family: "sign/ecdsa-rfc6979", Note: note, Priv: hx(b32(d)), Msg: hx(m)})
-			emit(Case{API: "sign:ecdsa-nonce", Family: "sign/ecdsa-nonce-recid", Note: note, Priv: hx(b32(d)), Msg: hx(m)})
 			for ai, a := range auxs {
 				emit(Case{API: "sign:schnorr", Family: "sign/schnorr", Note: fmt.Sprintf("%s aux#%d", note, ai), Priv: hx(b32(d)), Msg: hx(m), Aux: hx(a)})
+			}
+		}
+	}
+	// public key recovery with r, s outside [1, n-1] and every recovery id
+	for di, d := range []*big.Int{bi(1), modN(hashInt("verif C03 key 1"))} {
+		m := hashBytes("verif C03 message")
+		r, s := refsig.ECDSASignRFC6979(b32(d), m)
+		rs := map[string][2]*big.Int{"valid": {r, s}, "r=0": {bi(0), s}, "r=n": {bigN, s}, "r=n+1": {add(bigN, bi(1)), s}, "r+n": {add(r, bigN), s},
+			"s=0": {r, bi(0)}, "s=n": {r, bigN}, "s+n": {r, add(s, bigN)}, "n-s": {r, sub(bigN, s)}, "r=1": {bi(1), s}, "r=n-1": {sub(bigN, bi(1)), s}}
+		var names []string
+		for k := range rs {
+			names = append(names, k)
+		}
+		sortStrings(names)
+		for _, k := range names {
+			for recid := 0; recid < 4; recid++ {
+				emit(Case{API: "recover", Family: "recover/boundary", Note: fmt.Sprintf("key#%d %s recid=%d", di, k, recid),
+					Sig: hx(rs[k][0].Bytes()), Aux: hx(rs[k][1].Bytes()), Msg: hx(m), Rep: recid})
 			}
 		}
 	}
@@ -104,12 +122,34 @@ func checkEcdsaOutput(c Case, kind string, priv, msg []byte, r, s *big.Int) (key
 func evalSigner(c Case) (v verdict) {
 	priv, msg := unhx(c.Priv), unhx(c.Msg)
 	v.judged = true
+	_ = priv
 	defer func() {
 		if e := recover(); e != nil {
 			v = verdict{key: "sign/panic", what: fmt.Sprintf("%s priv=%s msg=%s panics: %v", c.API, c.Priv, c.Msg, e), class: "panic", judged: true}
 		}
 	}()
 	switch c.API {
+	case "recover":
+		r, s := refsecp.Int(unhx(c.Sig)), refsecp.Int(unhx(c.Aux))
+		var bs btc.Signature
+		bs.R.Set(r)
+		bs.S.Set(s)
+		want, wok := refsig.ECDSARecover(r, s, msg, c.Rep)
+		k := bs.RecoverPublicKey(msg, c.Rep)
+		call := fmt.Sprintf("btc.Signature{R=%s,S=%s}.RecoverPublicKey(hash=%s, recid=%d)", r.Text(16), s.Text(16), c.Msg, c.Rep)
+		v.class = fmt.Sprintf("reference ok=%v|impl key=%v", wok, k != nil)
+		if (k != nil) != wok {
+			v.key, v.what = "recover/result-mismatch", fmt.Sprintf("%s returns key=%v; libsecp256k1-style recovery (r, s in [1, n-1], r+n < p, x liftable) gives ok=%v [%s]", call, k != nil, wok, c.Note)
+			return v
+		}
+		if wok {
+			var out [33]byte
+			k.XY.GetPublicKey(out[:])
+			if !bytes.Equal(out[:], refsig.SerializePubkey(want, true)) {
+				v.key, v.what = "recover/wrong-key", fmt.Sprintf("%s = %x, reference %x", call, out, refsig.SerializePubkey(want, true))
+			}
+		}
+		return v
 	case "sign:ecdsa-random", "sign:ecdsa-rfc6979":
 		r, s, err := btc.EcdsaSign(priv, msg)
 		if err != nil {
